@@ -61,6 +61,12 @@ impl<BE: DecryptWriteBackend> SharedIndexer<BE> {
     #[verifier::external_body]
     pub fn vread(&self) -> (r: &Indexer<BE>) ensures *r == self.inner, { unimplemented!() }
 }
+// Indexer::into_shared: Arc<RwLock<_>> around the very same indexer
+#[verifier::external_body]
+pub fn vinto_shared<BE: DecryptWriteBackend>(ix: Indexer<BE>) -> (r: SharedIndexer<BE>) ensures r.inner == ix, { unimplemented!() }
+// be.clone(): another handle to the same backend
+#[verifier::external_body]
+pub fn vclone_be<BE: DecryptWriteBackend>(be: &BE) -> BE { unimplemented!() }
 pub struct VRawShared { pub _opaque: u64 }
 impl VRawShared {
     // raw_packer.write().unwrap().add_raw(..): EFFECT AS PRECONDITION -- `known` is the indexer's dedup set at the call
